@@ -60,7 +60,7 @@ PLAN = {
     },
     'C03': {
         'fronts': [], 'bounded': [],
-        'assumptions': ['token source / event source abstractions as in C09 / C13', 'under contract in the scanner: the look-ahead predicates, line breaks, block-scalar header / indentation / breaks, ignored lines, the whole directive scanner (scan_directive and its seven helpers), node tags (scan_tag, scan_tag_handle, scan_tag_uri, scan_uri_escapes), the white-space / folding helpers of quoted scalars (scan_flow_scalar_spaces / _breaks) and the simple-key registration (save / remove / stale / next_possible_simple_key, need_more_tokens); NOT under contract: the fetch_* dispatchers, unwind_indent / add_indent, scan_anchor, scan_block_scalar, scan_flow_scalar / scan_flow_scalar_non_spaces (probe note F1: chr() of an out-of-range \\U escape), scan_plain / scan_plain_spaces, scan_to_next_token: "scanning raises only ScannerError" is claimed for the functions under contract only'],
+        'assumptions': ['token source / event source abstractions as in C09 / C13', 'under contract in the scanner: the look-ahead predicates, line breaks, block-scalar header / indentation / breaks, ignored lines, the whole directive scanner (scan_directive and its seven helpers), node tags (scan_tag, scan_tag_handle, scan_tag_uri, scan_uri_escapes), the white-space / folding helpers of quoted scalars (scan_flow_scalar_spaces / _breaks), scan_to_next_token, add_indent and the simple-key registration (save / remove / stale / next_possible_simple_key, need_more_tokens); NOT under contract: the fetch_* dispatchers, unwind_indent, scan_anchor, scan_block_scalar, scan_flow_scalar / scan_flow_scalar_non_spaces (probe note F1: chr() of an out-of-range \\U escape), scan_plain / scan_plain_spaces, scan_to_next_token: "scanning raises only ScannerError" is claimed for the functions under contract only'],
         'explanation': 'parser and composer functions raise only ParserError / ComposerError (YAMLError) or what the layer below raises, for arbitrary token / event sequences; no IndexError, AttributeError, TypeError, UnboundLocalError, AssertionError is reachable; reader primitives are index-safe',
     },
     'C12': {
